@@ -102,19 +102,28 @@ func tokenExcludes(t, c string) bool {
 
 // ZZC08AllCheckers: exclude-checks = any two tokens from {ALL, categories, codes, junk}: every checker drops exactly the
 // matching codes and nothing else (the program produces all IMM/CTOR/TONL/PKGO codes).
-func ZZC08AllCheckers() {
+func ZZC08AllCheckers() { c08AllCheckers(2) }
+
+// ZZC08AllCheckers3: up to three tokens (thorough tier).
+func ZZC08AllCheckers3() { c08AllCheckers(3) }
+
+func c08AllCheckers(maxTokens int) {
 	alts := []string{"ALL", "IMM", "CTOR", "TONL", "PKGO", "IMM02", "CTOR03", "TONL01", "TONL03", "PKGO01", "PKGO02", "IMPL", "JUNK", "IMM0"}
 	e1 := nd.Enum("excl1", alts...)
 	e2 := nd.Enum("excl2", alts...)
+	e3 := nd.Enum("excl3", alts...)
 	n := nd.Int("n_excl")
 	nd.Assume(0 <= n)
-	nd.Assume(n <= 2)
+	nd.Assume(n <= maxTokens)
 	excl := []string{}
 	if n >= 1 {
 		excl = append(excl, e1)
 	}
 	if n >= 2 {
 		excl = append(excl, e2)
+	}
+	if n >= 3 {
+		excl = append(excl, e3)
 	}
 	files := []nd.File{{Pkg: "zzmod/d", Name: "d.go", Src: allSrcD}, {Pkg: "zzmod/u", Name: "u.go", Src: allSrcU}}
 	prog := nd.LoadProgram(files, nil)
@@ -129,6 +138,9 @@ func ZZC08AllCheckers() {
 		}
 		if n >= 2 {
 			dropped = nd.Or(dropped, tokenExcludes(e2, cl.code))
+		}
+		if n >= 3 {
+			dropped = nd.Or(dropped, tokenExcludes(e3, cl.code))
 		}
 		exp = append(exp, Expect{"/zz/zzmod/u/u.go", nd.LineOf(allSrcU, cl.needle), cl.code, nd.Not(dropped)})
 	}
